@@ -609,6 +609,36 @@ def judge(ctx, idx, case):
         ctx.count("scenario.path.%s" % case["path"])
     elif case["mode"] == "program":
         st = common.build(case["ops"])
+        if idx % 8 == 3:
+            # the records of a document that was built by another interpreter process and arrived by pickle obey the same rules:
+            # re-adding a formal value is a no-op, a second different value is refused
+            there = common.build_elsewhere(case["ops"])
+            if there is not None:
+                import datetime as _dt
+                recs = [x for c in [there.doc] + list(there.doc.bundles) for x in c._records][:12]
+                for rec in recs:
+                    for a, vs in list(rec._attributes.items()):
+                        if a.uri not in monitors.FORMAL or len(vs) != 1 or rec.get_type().localpart == "Membership":
+                            continue
+                        v = next(iter(vs))
+                        before = rec_snapshot(rec, set())
+                        try:
+                            rec.add_attributes([(a, v)])
+                        except pm.ProvException:
+                            problems.append("unpickled record: re-adding the value of %s it already has is refused" % a)
+                            break
+                        if rec_snapshot(rec, set()) != before:
+                            problems.append("unpickled record: re-adding the value of %s it already has changed the record" % a)
+                            break
+                        other = (v + _dt.timedelta(days=1)) if isinstance(v, _dt.datetime) else pm.Namespace("elsewhere", "http://elsewhere.example/")["other"]
+                        try:
+                            rec.add_attributes([(a, other)])
+                            problems.append("unpickled record: a second, different value of %s is accepted (%d values now)" % (a, len(rec._attributes[a])))
+                            break
+                        except pm.ProvException:
+                            pass
+                        ctx.count("unpickled_records.formal_attribute_rules_judged")
+                st = there
         for fmt in ("json", "provn"):
             try:
                 st.doc.serialize(format=fmt)
